@@ -242,3 +242,61 @@ def reference_channel(d, ctx):
             f'{int(np.argmax(crit))} value {best:.6g}', which=which)
     ctx.nontrivial(F >= 2 and (which == 'souden' or mu > 0))
     ctx.label(which, f'target={tk}')
+
+
+@subcheck(SUBCHECKS, 'wmwf_options', quick=400, thorough=7000)
+def wmwf_options(d, ctx):
+    """rarely used keywords of the Wiener filter / Souden MVDR"""
+    bf = _bf()
+    D, F, cond, scale = _dims(d)
+    rng = d.rng()
+    single = d.int(0, 3) == 0
+    phi_nn = gen.hpd(rng, D, min(cond, 1e3), scale, (F,))
+    phi_xx, a, tk = _target(d, rng, D, F, min(cond, 1e3), scale)
+    if single:
+        phi_nn, phi_xx = phi_nn.astype(np.complex64), phi_xx.astype(np.complex64)
+    tol = (1e-3 if single else 1e-9) * min(cond, 1e3)
+    which = d.choice(['channel_selection_vector', 'frequency_dependent', 'souden-eps'])
+    ctx.describe(D=D, F=F, which=which, single=single)
+    ctx.label(which, 'single' if single else 'double')
+    g = np.stack([np.linalg.solve(phi_nn[f].astype(np.complex128),
+                                  phi_xx[f].astype(np.complex128)) for f in range(F)])
+    tr = np.trace(g, axis1=-1, axis2=-2)[:, None, None]
+    if which == 'channel_selection_vector':
+        mu = d.choice([0.0, 1.0, 10.0])
+        kind = d.choice(['one-hot', 'weights'])
+        if kind == 'one-hot':
+            ref = d.int(0, D - 1)
+            sel = np.zeros((F, D))
+            sel[:, ref] = 1
+        else:
+            sel = rng.uniform(size=(F, D))
+        got = ctx.lib(bf.get_wmwf_vector, phi_xx, phi_nn, channel_selection_vector=sel,
+                      distortion_weight=mu)
+        filt = g / (mu + tr)
+        exp = np.einsum('fdc,fc->fd', filt, sel)
+        require_close(got, exp, 'wmwf-channel-selection-vector', rtol=tol, atol=1e-300)
+        if kind == 'one-hot':
+            one = ctx.lib(bf.get_wmwf_vector, phi_xx, phi_nn, reference_channel=ref,
+                          distortion_weight=mu)
+            require_close(got, one, 'wmwf-one-hot-selection-differs-from-reference-channel',
+                          rtol=tol, atol=1e-300)
+    elif which == 'frequency_dependent':
+        ref = d.int(0, D - 1)
+        got = ctx.lib(bf.get_wmwf_vector, phi_xx, phi_nn, reference_channel=ref,
+                      distortion_weight='frequency_dependent')
+        w = np.sqrt(phi_xx[:, 0:1, 0:1].astype(np.complex128) * tr)
+        exp = (g / w)[..., ref]
+        require_close(got, exp, 'wmwf-frequency-dependent-weight', rtol=tol, atol=1e-300)
+    else:
+        ref = d.int(0, D - 1)
+        eps = d.choice([None, 1e-30, 1e-10])
+        got = ctx.lib(bf.get_mvdr_vector_souden, phi_xx, phi_nn, ref_channel=ref, eps=eps)
+        exp = (g / tr)[..., ref]
+        require_close(got, exp, 'souden-eps-changes-regular-bins', rtol=tol, atol=1e-300)
+        w2, r2 = ctx.lib(bf.get_mvdr_vector_souden, phi_xx, phi_nn, ref_channel=ref,
+                         return_ref_channel=True)
+        require(r2 == ref and np.array_equal(w2, ctx.lib(
+            bf.get_mvdr_vector_souden, phi_xx, phi_nn, ref_channel=ref)),
+            'souden-return_ref_channel', f'{r2}')
+    ctx.nontrivial(F != D)
